@@ -12,11 +12,17 @@ T2: (a) pgcat::messages::read_message on segmented byte streams (harness bin `re
         received == what the client sent, what the client received == what the backend sent
         (byte-exact, cumulative prefix at every exchange and equality at the end); the model
         must predict the same bytes per exchange and the same blocked exchanges.
+    (c) the same with statement caching ON (prepared_statements_cache_size 1 and 8, props/c03cache.py): identity modulo the
+        permitted differences — statement names replaced by PGCAT_<n> with the length word adjusted by exactly the
+        name-length difference, Parse/Close answered by the pooler (one synthesised '1'/'3' each), pgcat's own
+        out-of-band Close/Parse/Sync exchanges recognised and kept away from the client; harness-side mutants of real
+        observations (Sync dropped / duplicated, Bind shortened / altered, extra ParseComplete) must be flagged on every run.
 TLS is not covered.
 """
 import json, os, struct, subprocess, sys
 import vlib
 from props import wirelib as W
+from props import c03cache as CC
 
 COQ_FILES = ["Relay/Model.v", "Relay/Proofs.v", "Relay/Witness.v", "Relay/Props.v"]
 PAD = b"wUf3D"          # bytes whose hex text is a run of one character (keeps Coq literals short)
@@ -25,6 +31,7 @@ KNOWN_TEXT = {
     "F19-flush-dropped": "Flush ('H') is not forwarded: `Parse, Flush` gets no ParseComplete until a later Sync (input: P H, then S)",
     "F20-lone-sync-answered-locally": "a Sync with nothing buffered is answered by the pooler itself and not forwarded to the server (input: a single S)",
     "F30-query-overtakes-open-batch": "a simple Query written while Parse/Bind/... of an open batch are still buffered is sent to the server ahead of them (input: inside BEGIN, P(s1) Q S arrives at the server as Q P S)",
+    "F34-synthesised-replies-ahead-of-server-replies": "statement caching on: the ParseComplete/CloseComplete the pooler synthesises are written ahead of the server's replies of the same batch, not where PostgreSQL sends them (input: Bind(s1) Execute Close(S,s1) Sync is answered 3 2 .. C Z instead of 2 .. C 3 Z)",
     "F21c-extended-copy-needs-sync": "extended-protocol COPY FROM STDIN: after CopyDone pgcat waits for a ReadyForQuery that PostgreSQL sends only after the client's Sync (input: P/B/E(COPY t FROM STDIN)/S, d, c, S)",
 }
 
@@ -410,6 +417,7 @@ def client_cuts(g, msgs_bytes):
     return g.cuts(fs, 5) if g.rng.random() < 0.5 else []
 
 
+ORDER_ID = "F34-synthesised-replies-ahead-of-server-replies"
 PENDING_ID = "F30-query-overtakes-open-batch"      # run only once known_findings.jsonl has a decision (known | fixed)
 
 
@@ -553,9 +561,20 @@ def client_encode(m):
     if t == "Q":
         return enc(("Q", m["sql"].encode() + b"\0"))
     if t == "P":
-        return enc(("P", cstr(m.get("name", "")) + m["sql"].encode() + b"\0" + struct.pack(">h", 0)))
+        ty = m.get("types", [])
+        return enc(("P", cstr(m.get("name", "")) + m["sql"].encode() + b"\0" + struct.pack(">h", len(ty)) + b"".join(struct.pack(">i", x) for x in ty)))
     if t == "B":
-        return enc(("B", cstr(m.get("portal", "")) + cstr(m.get("name", "")) + struct.pack(">hhh", 0, 0, 0)))
+        b = cstr(m.get("portal", "")) + cstr(m.get("name", ""))
+        fm = m.get("fmts", [])
+        b += struct.pack(">h", len(fm)) + b"".join(struct.pack(">h", x) for x in fm)
+        ps = m.get("params", [])
+        b += struct.pack(">h", len(ps))
+        for x in ps:
+            v = None if x is None else bytes.fromhex(x["hex"]) if isinstance(x, dict) else str(x).encode()
+            b += struct.pack(">i", -1) if v is None else struct.pack(">i", len(v)) + v
+        rf = m.get("rfmts", [])
+        b += struct.pack(">h", len(rf)) + b"".join(struct.pack(">h", x) for x in rf)
+        return enc(("B", b))
     if t in ("D", "C"):
         return enc((t, m.get("kind", "S").encode() + cstr(m.get("name", ""))))
     if t == "E":
@@ -773,6 +792,87 @@ def check_wire(run, wire, quick, samples, distinct, known_ids):
     return n_streams
 
 
+def cached_reply(g):
+    """what the backend answers to one Execute in the caching-on leg: a single statement's result (no ReadyForQuery)"""
+    rng = g.rng
+    k = rng.random()
+    if k < 0.35:
+        fs = g.boundary_rows()
+    elif k < 0.70:
+        fs = g.small()
+    elif k < 0.78:
+        fs = g.big_row()
+    elif k < 0.88:
+        fs = g.copy_out()
+    elif k < 0.94:
+        fs = [("I", b"")]
+    else:
+        fs = [f for f in g.small() if f[0] == "D"] + [("s", b"")]      # portal suspended
+    return g.sprinkle(fs) if rng.random() < 0.3 else fs
+
+
+def check_wire_cached(run, wire, quick, samples, distinct):
+    """statement caching on: identity modulo the permitted differences (props/c03cache.py)"""
+    thrD, thrd, thrc = gen_consts()
+    g = Gen(run.rng, thrD, thrd, thrc)
+    scns = CC.make_scenarios(run, g, quick, lambda: cached_reply(g))
+    full = [CC.build(g, s, client_encode) for s in scns]
+    results = W.run_scenarios(wire, full, timeout=120)
+    run.log("wire (caching on): %d scenarios run" % len(scns))
+    tot = {"batches": 0, "answered_parse": 0, "answered_close": 0, "oob": 0, "renamed": 0, "all_answered": 0, "reordered": 0}
+    n, exprs, want = 0, [], []
+    for s, res in zip(scns, results):
+        problem, st = CC.analyse(s, res)
+        if st is None:
+            run.broken.append("wire scenario %s: %s" % (s["kind"], problem))
+            continue
+        for k in tot:
+            tot[k] += st[k]
+        n += st["batches"]
+        for fs in st["inband"]:
+            distinct.add(("cached-reply", "".join(f[0] for f in fs)[:400], tuple(len(f[1]) for f in fs)[:400]))
+        if problem:
+            run.violation("counterexample", "statement caching on (cache size %d): %s" % (s["cache"], problem),
+                          {"input": {"kind": "wire-cached", "scenario": {"kind": s["kind"], "cache": s["cache"], "ex": s["ex"], "steps": s["steps"]}}, "monitor": problem})
+            return n
+        reps = [fs for fs in st["inband"] if fs]
+        exprs.append("relay_seq bel0 [] [%s]" % "; ".join(coq_frames(fs) for fs in reps))
+        want.append([len(encs(fs)) for fs in reps])
+    # the monitor must see through harness-side mutants of a real observation
+    caught, tried = 0, 0
+    for s, res in list(zip(scns, results))[:6]:
+        for label, r in CC.mutants(res):
+            tried += 1
+            if CC.analyse(s, r)[0]:
+                caught += 1
+            else:
+                run.broken.append("monitor self-test: %s went unnoticed (caching-on leg)" % label)
+    run.cov["cached_leg"] = dict(tot, scenarios=len(scns), monitor_selftest="%d/%d harness-side mutants flagged" % (caught, tried))
+    # order of the synthesised frames: judged only once known_findings.jsonl has a decision
+    st31 = {e["id"]: e.get("status") for e in vlib.known_findings("C03")}.get(ORDER_ID)
+    if st31 == "known" and tot["reordered"]:
+        run.known_finding(KNOWN_TEXT[ORDER_ID], key=ORDER_ID)
+    elif st31 == "known":
+        run.violation("tie-broken", "known deviation %s is listed but no batch showed it" % ORDER_ID, {"correspondence": "known_findings.jsonl vs wire run (caching on)"}, found_input=False)
+    elif st31 == "fixed" and tot["reordered"]:
+        bad = next(s for s, r in zip(scns, results) if CC.analyse(s, r)[1]["reordered"])
+        run.violation("counterexample", "statement caching on: synthesised ParseComplete/CloseComplete are not where PostgreSQL sends them (%d batches)" % tot["reordered"],
+                      {"input": {"kind": "wire-cached", "scenario": {"kind": bad["kind"], "cache": bad["cache"], "ex": bad["ex"], "steps": bad["steps"]}}, "monitor": "reply order"})
+    elif st31 is None and tot["reordered"]:
+        run.cov.setdefault("pending_decision", []).append("%s: %d of %d batches got their synthesised '1'/'3' ahead of the server's replies (counted, not judged: no entry in known_findings.jsonl yet)" % (ORDER_ID, tot["reordered"], tot["batches"]))
+    vals = vlib.coq_eval("c03c", PREAMBLE, exprs, shard=min(60, max(4, len(exprs) // 16 + 1)))
+    for s, v, w in zip(scns, vals, want):
+        seq = vlib.parse_coq(v)
+        run.cov["traces_validated_against_impl"] += len(w)
+        if [x[0] for x in seq] != [0] * len(w) or [x[3] for x in seq] != w:
+            run.violation("tie-broken", "caching-on leg: the relay model does not reproduce the in-band replies of a %s scenario: %s vs %s" % (s["kind"], [x[3] for x in seq][:8], w[:8]),
+                          {"correspondence": "Relay/Model.v relay vs pgcat (wire, caching on)", "input": {"kind": "wire-cached", "scenario": {"kind": s["kind"], "cache": s["cache"], "ex": s["ex"], "steps": s["steps"]}}, "model": v[:400]}, found_input=False)
+            return n
+    if scns:
+        samples.append({"kind": "wire-cached", "cache": scns[0]["cache"], "first_batch": "".join(m["t"] for m in scns[0]["ex"][0]["msgs"]), "totals": tot})
+    return n
+
+
 def strip(s):
     return {"kind": s["kind"], "known": s["known"], "steps": s["steps"],
             "ex": [{k: v for k, v in e.items() if not k.startswith("_")} for e in s["ex"]]}
@@ -785,7 +885,7 @@ def check(run):
         "translate/relay_consts.py extracts the thresholds, the per-arm effects of Server::recv and the loop shapes faithfully (validated each run: c03_arm_table_is_model + the wire correspondence)",
         "tokio read_u8/read_i32/read_exact deliver the byte stream whatever the TCP segmentation (exercised: segmented AsyncRead in relayio, split writes on both sides of pgcat)",
         "mock backend emits exactly the scripted bytes (raw= / copy_reply_raw=) and logs exactly what it wrote/read; it is not a real PostgreSQL",
-        "TLS (rustls) is not covered; statement caching is off (C08 owns renamed statements), no custom SET/SHOW commands (C13)",
+        "TLS (rustls) is not covered; no custom SET/SHOW commands (C13); the Coq client-side model is for statement caching off — with caching on the wire monitor of props/c03cache.py judges the identity modulo renaming (that renaming changes only name and length word is C08's theorem c08_*_rename_only_name_and_len), batches naming more pooler statements than the cache holds are C08's known class F11e and are not generated",
     ]
     run.cov["trusted_base"] = ["coqc 8.16.1 kernel", "vm_compute", "translate/relay_consts.py", "harness/src/bin/{wire,relayio}.rs + mockpg.rs + client.rs",
                                "props/c03.py monitors and glue (relay_seq / crun_m in the coq_eval preamble)", "Print Assumptions: Closed under the global context (all theorems)"]
@@ -808,6 +908,9 @@ def check(run):
         if not run.violations:
             evals += check_wire(run, bins["wire"], quick, samples, distinct, known_ids)
             run.log("wire tie done (%d)" % evals)
+        if not run.violations:
+            evals += check_wire_cached(run, bins["wire"], quick, samples, distinct)
+            run.log("wire tie, statement caching on, done (%d)" % evals)
     else:
         # proof / translator broken: monitor search on the implementation alone
         w = monitor_search(run, bins["wire"], known_ids)
@@ -821,7 +924,7 @@ def check(run):
     run.cov["rule"] = ("framing: random frame sequences + cut/short/refused (len 0..3, negative) tails, segment cuts inside the 5-byte header, real read_message vs parse_avail/feed_all; "
                        "wire: scripted reply streams with DataRow/CopyData sizes placed so the buffer length is thr-1/thr/thr+1 (thr from the source) once to three times, empty and multi-statement results, "
                        "Notice/ParameterStatus interleavings and unsolicited frames after ReadyForQuery, ErrorResponse in mid-stream, COPY OUT, COPY IN with CopyDone/CopyFail and chunks around the client threshold, portal suspension, "
-                       "simple / extended / pipelined requests, TCP cuts on client->pgcat and backend->pgcat writes; distinct = distinct (tag sequence, body lengths) reply streams + distinct framing cases")
+                       "simple / extended / pipelined requests, TCP cuts on client->pgcat and backend->pgcat writes; statement caching on (cache size 1 and 8): named/unnamed Parse, Bind with 0..4 parameters incl. NULL / empty / binary and result formats, Describe S/P, Execute, Close S/P, repeated statements (hits, misses, evictions), pooler-answered batches followed by ordinary ones, pipelined; distinct = distinct (tag sequence, body lengths) reply streams + distinct framing cases")
     run.cov["samples"] = samples[:6]
     if not quick and model_ok and not run.violations:
         # release build of pgcat (wrapping instead of panicking arithmetic in read_message's length handling)
@@ -863,6 +966,13 @@ def replay(run, path):
         good = [bytes.fromhex(h) for h in out["frames"]] == [enc(f) for f in fs][:len(out["frames"])] and len(out["frames"]) == len(fs)
         print("replay: read_message returned %d frames, end=%s; python framing: %d frames, %d bytes left -> %s" % (len(out["frames"]), out["end"], len(fs), len(rest), "agree" if good else "DISAGREE"))
         return 0 if good else 1
+    if inp.get("kind") == "wire-cached":
+        ok, blog, bins = vlib.cargo_build(["wire"])
+        s = inp["scenario"]
+        res = W.run_scenario(bins["wire"], {"backends": [{"name": "b0"}], "toml": CC.toml(s["cache"]), "hex": True, "log_out": True, "steps": s["steps"]}, timeout=120)
+        problem, st = CC.analyse(s, res, strict_order=(r.get("monitor") == "reply order"))
+        print("replay: monitor says: %s" % (problem or "identity modulo renamed statements and synthesised ParseComplete/CloseComplete"))
+        return 1 if problem else 0
     if inp.get("kind") == "wire":
         ok, blog, bins = vlib.cargo_build(["wire"])
         s = inp["scenario"]
